@@ -50,6 +50,7 @@ type compCase struct {
 	Sockets  bool   `json:"sockets"`
 	UpTo     int    `json:"up_to_query"`
 	Burst    bool   `json:"concurrent_phase,omitempty"` // also run the concurrent real-socket rounds
+	Hostile  bool   `json:"hostile_client_phase,omitempty"` // also run the failed-request / slow-upload rounds
 
 	// for the reader (regenerated from the seed on replay)
 	Comp     *Comp    `json:"composition,omitempty"`
@@ -59,6 +60,7 @@ type compCase struct {
 	Chain    string   `json:"chain_returned,omitempty"`
 	Trace    string   `json:"trace,omitempty"`
 	Note     string   `json:"note,omitempty"`
+	Script   []string `json:"hostile_round_script,omitempty"`
 }
 
 var clients = []string{"", "192.0.2.55", "2001:db8::55", "::ffff:192.0.2.56", "127.0.0.1"}
@@ -381,6 +383,18 @@ func runComp(seed int64, cc compCase, replay bool) {
 			fmt.Printf("replayed the concurrent phase of composition %d %d times\n", c.Idx, reps)
 		}
 	}
+	if cc.Hostile && cc.UpTo < 0 {
+		reps := 1
+		if replay {
+			reps = 10 // schedule dependent
+		}
+		for i := 0; i < reps; i++ {
+			b.hostilePhase(seed+int64(i), cc, rep.Pick(2, 3))
+		}
+		if replay {
+			fmt.Printf("replayed the hostile-client phase of composition %d %d times\n", c.Idx, reps)
+		}
+	}
 	b.rt.mu.Lock()
 	herr := append([]string(nil), b.rt.harnErr...)
 	b.rt.mu.Unlock()
@@ -445,7 +459,7 @@ func main() {
 			fmt.Fprintln(os.Stderr, "cannot load replay:", err)
 			os.Exit(2)
 		}
-		cc.Comp, cc.Plan, cc.Replies = nil, nil, nil
+		cc.Comp, cc.Plan, cc.Replies, cc.Script = nil, nil, nil, nil
 		caselog.Log(cc)
 		runComp(rep.Seed, cc, true)
 		rep.Finish()
@@ -485,7 +499,7 @@ func main() {
 		}()
 	}
 	for idx := 0; idx < nComp; idx++ {
-		cc := compCase{CompIdx: idx, Terminal: terminalFor(idx), NQ: nQ, Sockets: idx%4 == 0, Burst: idx%4 == 0, UpTo: -1}
+		cc := compCase{CompIdx: idx, Terminal: terminalFor(idx), NQ: nQ, Sockets: idx%4 == 0, Burst: idx%4 == 0, Hostile: idx%4 == 0, UpTo: -1}
 		if cc.Terminal != "echo" {
 			cc.NQ = nQ / 3
 		}
@@ -523,7 +537,10 @@ func main() {
 		"redirected_queries", "malformed_queries_without_reply", "deliveries_udp", "deliveries_tcp", "deliveries_doh-get",
 		"deliveries_doh-post", "deliveries_h-udp", "deliveries_h-tcp", "deliveries_h-doh", "udp_replies_over_512",
 		"loopback_upstream_udp_queries", "loopback_upstream_tcp_queries", "extended_rcode_answers",
-		"deliveries_udp-burst", "deliveries_tcp-pipelined", "deliveries_doh-concurrent"} {
+		"deliveries_udp-burst", "deliveries_tcp-pipelined", "deliveries_doh-concurrent",
+		"deliveries_doh-after-abort", "deliveries_tcp-after-abort", "deliveries_udp-after-abort",
+		"hostile_doh_rejections_observed", "hostile_doh_h2_streams_reset", "hostile_doh_slow_uploads_judged",
+		"hostile_tcp_server_close_observed", "hostile_tcp_slow_frames_judged", "hostile_udp_runt_datagrams"} {
 		if rep.Get(need) == 0 {
 			rep.Inconclusive("monitor counter %s is zero: that part of the property was not exercised", need)
 		}
